@@ -474,6 +474,548 @@ fn check_ransac_near_band(r: &mut Report) {
     }
 }
 
+// ================================================================ WAVE 5: parameter-space audit (notes/w5_audit_C09.md)
+// Every family below is enumerated (no RNG); tolerances were measured on the unchanged tree (VERIF_C09_MEASURE=1 prints the
+// worst value of every quantity compared with a tolerance) and fixed >= 100x above the worst value seen.
+fn measuring() -> bool { std::env::var("VERIF_C09_MEASURE").is_ok() }
+thread_local! { static MEAS: std::cell::RefCell<Vec<(String, f64)>> = std::cell::RefCell::new(Vec::new()); }
+/// records the worst value of a measured quantity (only in measuring mode) and returns `v <= tol`
+fn within(name: &str, v: f64, tol: f64) -> bool {
+    if measuring() {
+        MEAS.with(|m| { let mut m = m.borrow_mut();
+            match m.iter_mut().find(|e| e.0 == name) { Some(e) => { if !(v <= e.1) { e.1 = v; } }, None => m.push((name.to_string(), v)) } });
+    }
+    v <= tol
+}
+fn dump_measurements() {
+    if measuring() { MEAS.with(|m| for (k, v) in m.borrow().iter() { eprintln!("C09-MEASURE {:<70} {:e}", k, v); }); }
+}
+/// worst |fit_k - c_k| relative to the NATURAL magnitude of coefficient k on this abscissa range: (sum_j |c_j| xmax^j) / xmax^k
+fn coeff_err(fit: &[f64], c: &[f64], xs: &[f64]) -> f64 {
+    let xmax = xs.iter().fold(0.0f64, |a, b| a.max(b.abs()));
+    let mag: f64 = (0..c.len()).map(|j| c[j].abs() * pw(xmax, j)).sum::<f64>().max(f64::MIN_POSITIVE);
+    (0..c.len()).map(|k| (fit[k] - c[k]).abs() * pw(xmax, k) / mag).fold(0.0, f64::max)
+}
+/// worst | sum_i w_i x_i^j (y_i - p(x_i)) | over the monomial columns j, relative to the sum of the magnitudes of the terms
+fn normal_eq_err(c: &[f64], xs: &[f64], ys: &[f64], wv: &[f64]) -> f64 {
+    let n = xs.len();
+    let mut worst = 0.0f64;
+    for j in 0..c.len() {
+        let dot: f64 = (0..n).map(|i| wv[i] * pw(xs[i], j) * (ys[i] - horner(c, xs[i]))).sum();
+        let scale: f64 = (0..n).map(|i| wv[i] * pw(xs[i], j).abs() * (ys[i].abs() + (0..c.len()).map(|k| (c[k] * pw(xs[i], k)).abs()).sum::<f64>())).sum();
+        let e = if scale > 0.0 { dot.abs() / scale } else { dot.abs() };
+        if !(e <= worst) { worst = e; }
+    }
+    worst
+}
+/// worst |p(x_i) - y_i| relative to the largest magnitude reached by the terms of p (and by y) on the abscissae
+fn interp_err(c: &[f64], xs: &[f64], ys: &[f64]) -> f64 {
+    let mag = (0..xs.len()).map(|i| (0..c.len()).map(|k| (c[k] * pw(xs[i], k)).abs()).sum::<f64>() + ys[i].abs()).fold(f64::MIN_POSITIVE, f64::max);
+    let mut worst = 0.0f64;
+    for i in 0..xs.len() {
+        let e = (horner(c, xs[i]) - ys[i]).abs() / mag;
+        if !(e <= worst) { worst = e; }
+    }
+    worst
+}
+fn wss(c: &[f64], xs: &[f64], ys: &[f64], wv: &[f64]) -> f64 { (0..xs.len()).map(|i| wv[i] * (ys[i] - horner(c, xs[i])).powi(2)).sum() }
+/// no coefficient vector on a +-3% / +-50% star around the fit has a smaller weighted sum of squares
+fn locally_optimal(c: &[f64], xs: &[f64], ys: &[f64], wv: &[f64]) -> bool {
+    let base = wss(c, xs, ys, wv);
+    let xmax = xs.iter().fold(0.0f64, |a, b| a.max(b.abs()));
+    let ymax = ys.iter().fold(0.0f64, |a, b| a.max(b.abs()));
+    for j in 0..c.len() { for h in [0.03125, -0.03125, 0.5, -0.5] {
+        let mut c2 = c.to_vec(); c2[j] += h * (ymax / pw(xmax, j) + c2[j].abs());
+        if !(wss(&c2, xs, ys, wv) >= base * (1.0 - 1e-9) - 1e-300) { return false; }
+    } }
+    true
+}
+const CL_EXACT: &str = "exact samples of a polynomial of the fitted size return that polynomial";
+const CL_INTERP: &str = "fit of exact samples interpolates them";
+const CL_ORTHO: &str = "residual orthogonal to every monomial column in the weighted inner product";
+const CL_OPT: &str = "no perturbed coefficient vector has a smaller weighted sum of squares";
+const CL_NOPANIC: &str = "least_squares returns (no panic) on >= K distinct abscissae";
+const CL_ONES: &str = "weights that are all equal give the unweighted fit";
+const CL_ORDER: &str = "the fit does not depend on the order of the samples";
+
+/// one abscissa family of wave 5: exact polynomial given by `c` (monomial coefficients, exactly representable), data vectors
+/// taken cyclically from DATA, weight vectors `ws`; `tol` bounds coeff_err / interp_err / normal_eq_err
+fn w5_poly_family<const K: usize>(r: &mut Report, name: &str, xs: &[f64], cs: &[[f64; K]], ws: &[Option<Vec<f64>>], tol: f64) {
+    let n = xs.len();
+    for w in ws.iter() {
+        let wv: Vec<f64> = match w { Some(v) => v.clone(), None => vec![1.0; n] };
+        let wdesc = || match w { Some(v) if v.len() > 12 => format!("Some([{:?}, {:?}, {:?}, .. {} values])", v[0], v[1], v[2], v.len()), other => format!("{:?}", other) };
+        let xdesc = || if n > 12 { format!("[{:?}, {:?}, {:?}, .. {:?}] ({} values)", xs[0], xs[1], xs[2], xs[n - 1], n) } else { format!("{:?}", xs) };
+        for c in cs.iter() {
+            let ys: Vec<f64> = xs.iter().map(|x| horner(c, *x)).collect();
+            r.case();
+            let fit = fit_caught::<K>(xs, &ys, w.as_deref());
+            let desc = || format!("K={} abscissae '{}' {} weights {} coefficients {:?}: fit {:?}", K, name, xdesc(), wdesc(), c, fit.as_ref().map(|p| p.c));
+            r.check(fit.is_some(), CL_NOPANIC, desc);
+            if let Some(f) = &fit {
+                r.check(within(&format!("poly exact coeff  K={} {}", K, name), coeff_err(&f.c, c, xs), tol), CL_EXACT, desc);
+                r.check(within(&format!("poly exact interp K={} {}", K, name), interp_err(&f.c, xs, &ys), tol), CL_INTERP, desc);
+            }
+        }
+        for (di, d) in DATA.iter().enumerate() {
+            // arbitrary data on the magnitude of the first exact polynomial's samples
+            let ymag = xs.iter().map(|x| horner(&cs[0], *x).abs()).fold(0.0f64, f64::max).max(1.0);
+            let ys: Vec<f64> = (0..n).map(|i| d[(i * 7 + di) % 9] * ymag / 8.0).collect();
+            r.case();
+            let fit = fit_caught::<K>(xs, &ys, w.as_deref());
+            let desc = || format!("K={} abscissae '{}' {} weights {} data {:?}..: fit {:?}", K, name, xdesc(), wdesc(), &ys[..n.min(9)], fit.as_ref().map(|p| p.c));
+            r.check(fit.is_some(), CL_NOPANIC, desc);
+            if let Some(f) = &fit {
+                r.check(within(&format!("poly data normal-eq K={} {}", K, name), normal_eq_err(&f.c, xs, &ys, &wv), tol), CL_ORTHO, desc);
+                r.check(locally_optimal(&f.c, xs, &ys, &wv), CL_OPT, desc);
+            }
+        }
+    }
+}
+/// coefficients (monomial basis, exact for the integer inputs used) of a + b (x - off) + c (x - off)^2
+fn shifted<const K: usize>(off: f64, a: f64, b: f64, c: f64) -> [f64; K] {
+    let mut out = [0.0; K];
+    out[0] = a - b * off + if K > 2 { c * off * off } else { 0.0 };
+    out[1] = b - if K > 2 { 2.0 * c * off } else { 0.0 };
+    if K > 2 { out[2] = c; }
+    out
+}
+fn scaled<const K: usize>(cf: &[f64; 6], s: f64) -> [f64; K] { let mut c = [0.0; K]; for k in 0..K { c[k] = cf[k] / pw(s, k); } c }
+
+fn check_poly_w5<const K: usize>(r: &mut Report) {
+    let base = [-2.0, -1.0, 0.0, 1.0, 3.0, 4.0, 6.0];
+    let pos9 = [0.0, 0.25, 0.5, 1.0, 1.5, 1.75, 2.0, 3.0, 3.5];
+    let none_and = |v: Vec<f64>| vec![None, Some(v)];
+    // (1a) power-of-two scaling of the abscissae (coefficients scale exactly): tiny and huge abscissae
+    let scales: &[f64] = match K { 2 => &[9.5367431640625e-7, 0.0009765625, 1024.0, 1048576.0], 3 => &[0.0009765625, 0.03125, 32.0, 1024.0], 4 => &[0.03125, 32.0], _ => &[0.25, 4.0] };
+    for s in scales.iter() {
+        let xs: Vec<f64> = base.iter().map(|x| x * s).collect();
+        let cs: Vec<[f64; K]> = COEFFS[..2].iter().map(|cf| scaled::<K>(cf, *s)).collect();
+        w5_poly_family::<K>(r, &format!("asymmetric integers * {:?}", s), &xs, &cs, &none_and(WEIGHTS[0][..7].to_vec()), 1e-7);
+    }
+    // (1b) integer abscissae offset far from zero (all power sums exact; K = 2 up to +-1e6, K = 3 at +-100: beyond that the
+    // normal matrix of the monomial basis is numerically singular in f64, measured error 4e-3 at +-1000)
+    let spread = [0.0, 1.0, 3.0, 4.0, 7.0, 9.0, 12.0, 13.0];
+    let offs: &[f64] = match K { 2 => &[1000.0, -1000.0, 10000.0, 100000.0, 1000000.0, -1000000.0], 3 => &[100.0, -100.0], _ => &[] };
+    for off in offs.iter() {
+        let xs: Vec<f64> = spread.iter().map(|d| off + d).collect();
+        let cs: Vec<[f64; K]> = vec![shifted::<K>(*off, -2.0, 3.0, 0.5), shifted::<K>(*off, 4.0, -0.5, -1.0)];
+        w5_poly_family::<K>(r, &format!("integers {:?} + [0, 13]", off), &xs, &cs, &none_and(WEIGHTS[1][..8].to_vec()), if K == 2 { 1e-9 } else { 1e-6 });
+        // offset with a comparable spread (relative spacing O(1))
+        let xs2: Vec<f64> = spread.iter().map(|d| off * (1.0 + d / 8.0)).collect();
+        let m = xs2.iter().fold(0.0f64, |a, b| a.max(b.abs()));
+        let cs2: Vec<[f64; K]> = COEFFS[..2].iter().map(|cf| scaled::<K>(cf, m)).collect();
+        w5_poly_family::<K>(r, &format!("{:?} * (1 + [0, 13] / 8)", off), &xs2, &cs2, &none_and(WEIGHTS[1][..8].to_vec()), 1e-8);
+    }
+    // (1c) many samples (asymmetric dyadic grids), periodic non-uniform weights
+    for (n, shift, den) in [(100usize, 30.0, 64.0), (1025, 400.0, 512.0), (4097, 1500.0, 2048.0)] {
+        let xs: Vec<f64> = (0..n).map(|k| (k as f64 - shift) / den).collect();
+        let cs: Vec<[f64; K]> = COEFFS[..2].iter().map(|cf| scaled::<K>(cf, 1.0)).collect();
+        w5_poly_family::<K>(r, &format!("{} values (k - {:?}) / {:?}", n, shift, den), &xs, &cs, &none_and((0..n).map(|i| WEIGHTS[0][i % 9]).collect()), 1e-7);
+    }
+    // (3) duplicate abscissae (six distinct values among ten, not sorted), equal ordinates for exact samples, different ones for data
+    {
+        let xs = [3.0, -2.0, 0.0, -2.0, 1.0, 0.0, 4.0, 3.0, -1.0, 0.0];
+        let cs: Vec<[f64; K]> = COEFFS.iter().map(|cf| scaled::<K>(cf, 1.0)).collect();
+        let w10: Vec<f64> = (0..10).map(|i| WEIGHTS[1][(i * 4) % 9]).collect();
+        w5_poly_family::<K>(r, "ten samples on six distinct integers (duplicates, unsorted)", &xs, &cs, &none_and(w10), 1e-6);
+    }
+    // (2)/(3) weights: huge ratio, uniformly tiny / huge, geometric; all equal == None
+    {
+        let cs: Vec<[f64; K]> = COEFFS[..2].iter().map(|cf| scaled::<K>(cf, 1.0)).collect();
+        let big = 1048576.0;
+        let mut ws: Vec<Option<Vec<f64>>> = vec![
+            Some(vec![1.0 / 1073741824.0; 9]), Some(vec![1073741824.0; 9]), Some((0..9).map(|i| pw(2.0, i)).collect()), Some((0..9).map(|i| pw(0.5, 2 * i)).collect()),
+        ];
+        // alternating 2^20 / 2^-20: five samples carry the fit (K <= 4 keeps the problem well conditioned)
+        if K <= 4 { ws.push(Some((0..9).map(|i| if i % 2 == 0 { big } else { 1.0 / big }).collect())); }
+        if K <= 3 { ws.push(Some((0..9).map(|i| if i % 3 == 1 { big } else { 1.0 / big }).collect())); }
+        w5_poly_family::<K>(r, "positive side only (nine values)", &pos9, &cs, &ws, 1e-6);
+        // all-equal weights: the same minimiser as without weights
+        for d in DATA.iter() { for wc in [1.0, 1.0 / 1073741824.0, 1073741824.0, 3.0] {
+            r.case();
+            let a = fit_caught::<K>(&pos9, d, None);
+            let b = fit_caught::<K>(&pos9, d, Some(&vec![wc; 9]));
+            let ok = match (&a, &b) { (Some(a), Some(b)) => within(&format!("poly equal weights K={}", K), coeff_err(&b.c, &a.c, &pos9), 1e-9), _ => false };
+            r.check(ok, CL_ONES, || format!("K={} abscissae {:?} data {:?}: weights None -> {:?}, weights Some([{:?}; 9]) -> {:?}", K, pos9, d, a.as_ref().map(|p| p.c), wc, b.as_ref().map(|p| p.c)));
+        } }
+        // order of the samples (reversed, rotated): the same minimiser
+        for d in DATA.iter() { for w in [None, Some(WEIGHTS[0].to_vec())] {
+            let a = fit_caught::<K>(&pos9, d, w.as_deref());
+            for rot in [0usize, 4] {
+                let perm: Vec<usize> = (0..9).map(|i| (8 - i + rot) % 9).collect();
+                let (px, py): (Vec<f64>, Vec<f64>) = (perm.iter().map(|i| pos9[*i]).collect(), perm.iter().map(|i| d[*i]).collect());
+                let pwv: Option<Vec<f64>> = w.as_ref().map(|v| perm.iter().map(|i| v[*i]).collect());
+                r.case();
+                let b = fit_caught::<K>(&px, &py, pwv.as_deref());
+                let ok = match (&a, &b) { (Some(a), Some(b)) => within(&format!("poly order K={}", K), coeff_err(&b.c, &a.c, &pos9), 1e-8), _ => false };
+                r.check(ok, CL_ORDER, || format!("K={} abscissae {:?} data {:?} weights {:?} -> {:?}; the same samples in the order {:?} -> {:?}", K, pos9, d, w, a.as_ref().map(|p| p.c), perm, b.as_ref().map(|p| p.c)));
+            }
+        } }
+    }
+    // (2) exactly K samples with a huge weight ratio: the fit interpolates whatever the weights
+    {
+        let all = [-1.0, 0.0, 1.0, 3.0, 2.0, -2.0];
+        let xs = &all[..K];
+        let w: Vec<f64> = (0..K).map(|i| if i % 2 == 0 { 32.0 } else { 1.0 / 32.0 }).collect();
+        for d in DATA.iter() {
+            r.case();
+            let fit = fit_caught::<K>(xs, &d[..K], Some(&w));
+            let ok = match &fit { Some(f) => within(&format!("poly exactly K samples K={}", K), interp_err(&f.c, xs, &d[..K]), 1e-7), None => false };
+            r.check(ok, "fit of exactly K samples interpolates them", || format!("K={} abscissae {:?} data {:?} weights {:?}: fit {:?}", K, xs, &d[..K], w, fit.as_ref().map(|p| p.c)));
+        }
+    }
+    // (5) shapes: end points symmetric about zero with an asymmetric interior; mean exactly zero but asymmetric; a cluster and a
+    // far leverage point; geometric spacing; all abscissae negative and far from zero
+    {
+        let cs: Vec<[f64; K]> = COEFFS[..2].iter().map(|cf| scaled::<K>(cf, 1.0)).collect();
+        w5_poly_family::<K>(r, "end points symmetric, interior not", &[-3.0, -1.0, -0.5, 0.0, 2.0, 2.5, 3.0], &cs, &none_and(WEIGHTS[0][..7].to_vec()), 1e-6);
+        w5_poly_family::<K>(r, "mean exactly zero, asymmetric", &[-4.0, -1.0, 0.0, 0.0, 2.0, 3.0, -1.5, 1.5], &cs, &none_and(WEIGHTS[1][..8].to_vec()), 1e-6);
+        if K <= 3 {
+            let xl = [0.0, 0.015625, 0.03125, 0.046875, 0.0625, 100.0, 37.0];
+            let cl: Vec<[f64; K]> = COEFFS[..2].iter().map(|cf| scaled::<K>(cf, 100.0)).collect();
+            w5_poly_family::<K>(r, "cluster near zero + leverage points 37, 100", &xl, &cl, &none_and(WEIGHTS[0][..7].to_vec()), 1e-7);
+            let xg = [1.0, 2.0, 4.0, 8.0, 16.0, 32.0, 64.0];
+            let cg: Vec<[f64; K]> = COEFFS[..2].iter().map(|cf| scaled::<K>(cf, 64.0)).collect();
+            w5_poly_family::<K>(r, "geometric 1 .. 64", &xg, &cg, &none_and(WEIGHTS[1][..7].to_vec()), 1e-7);
+        }
+        if K <= 3 {
+            let xn = [-40.0, -39.0, -37.5, -36.0, -33.0, -32.0, -30.0];
+            let cn: Vec<[f64; K]> = COEFFS[..2].iter().map(|cf| scaled::<K>(cf, 32.0)).collect();
+            w5_poly_family::<K>(r, "all negative, -40 .. -30", &xn, &cn, &none_and(WEIGHTS[0][..7].to_vec()), 1e-7);
+        }
+    }
+    // (3) degenerate ordinates: all zero, all equal
+    for (yv, name) in [(0.0, "all ordinates 0.0"), (-7.5, "all ordinates -7.5")] { for w in [None, Some(WEIGHTS[0][..7].to_vec())] {
+        r.case();
+        let ys = vec![yv; 7];
+        let fit = fit_caught::<K>(&base, &ys, w.as_deref());
+        let mut c = [0.0; K]; c[0] = yv;
+        let ok = match &fit { Some(f) => (0..K).all(|k| (f.c[k] - c[k]).abs() <= 1e-9 * (1.0 + yv.abs())), None => false };
+        r.check(ok, CL_EXACT, || format!("K={} abscissae {:?} {} weights {:?}: fit {:?}", K, base, name, w, fit.as_ref().map(|p| p.c)));
+    } }
+    // (6) evaluation: Func1::f / fs against Horner's scheme, Line1 accessors
+    {
+        use crate::common::DiscreteDomain;
+        let pts = [-1000.0, -3.0, -1.0, -0.0, 0.0, 0.5, 1.0, 2.0, 7.25, 1000.0];
+        for cf in COEFFS.iter() {
+            let c: [f64; K] = scaled::<K>(cf, 1.0);
+            let p = Polynomial::<K>::new(c);
+            r.case();
+            let ok = pts.iter().all(|x| { let (a, b) = (p.f(*x), horner(&c, *x)); let mag: f64 = (0..K).map(|k| (c[k] * pw(*x, k)).abs()).sum(); (a - b).abs() <= 1e-12 * (1.0 + mag) });
+            r.check(ok && p.f(0.0) == c[0], "Polynomial::f evaluates sum c_j x^j", || format!("K={} coefficients {:?}: f at {:?} = {:?}, Horner {:?}", K, c, pts, pts.iter().map(|x| p.f(*x)).collect::<Vec<_>>(), pts.iter().map(|x| horner(&c, *x)).collect::<Vec<_>>()));
+            let dom = DiscreteDomain::try_from(vec![-3.0, -1.0, 0.0, 0.5, 2.0, 7.25]).ok();
+            let fs = dom.as_ref().map(|d| p.fs(d));
+            r.check(match (&dom, &fs) { (Some(d), Some(v)) => v.len() == d.len() && (0..v.len()).all(|i| v[i] == p.f(d[i])), _ => false }, "Func1::fs evaluates f at every abscissa in order", || format!("K={} coefficients {:?}: fs {:?}", K, c, fs));
+        }
+    }
+}
+
+fn check_line1_w5(r: &mut Report) {
+    use crate::func1::Line1;
+    for (m, b) in [(2.0, 1.0), (-0.5, 4.0), (0.0, -3.0), (128.0, 0.0), (1.0, 2.0)] {
+        r.case();
+        let l = Line1::new_mxb(m, b);
+        r.check(l.m() == m && l.b() == b && l.c == [b, m] && [-2.0, 0.0, 0.5, 3.0].iter().all(|x| close(l.f(*x), m * x + b)), "Line1::new_mxb(m, b) is the polynomial b + m x with slope m() and intercept b()", || format!("new_mxb({:?}, {:?}) -> c {:?}, m() {:?}, b() {:?}, f(3) {:?}", m, b, l.c, l.m(), l.b(), l.f(3.0)));
+    }
+}
+
+// ---------------------------------------------------------------- wave 5: Series1::best_fit_line
+/// centred closed form (independent oracle): m = S(x - xm)(y - ym) / S(x - xm)^2, b = ym - m xm
+fn centred_line(xs: &[f64], ys: &[f64]) -> (f64, f64) {
+    let n = xs.len() as f64;
+    let xm = xs.iter().sum::<f64>() / n; let ym = ys.iter().sum::<f64>() / n;
+    let sxy: f64 = (0..xs.len()).map(|i| (xs[i] - xm) * (ys[i] - ym)).sum();
+    let sxx: f64 = xs.iter().map(|x| (x - xm) * (x - xm)).sum();
+    let m = sxy / sxx;
+    (m, ym - m * xm)
+}
+fn check_series_w5(r: &mut Report) {
+    let spread = [0.0, 1.0, 3.0, 4.0, 7.0, 9.0, 12.0, 13.0];
+    let mut sets: Vec<(String, Vec<f64>, f64)> = vec![];
+    for off in [1000.0, -1000.0, 10000.0, 100000.0, 1000000.0, -1000000.0] { sets.push((format!("integers {:?} + [0, 13]", off), spread.iter().map(|d| off + d).collect(), 1e-9)); }
+    for s in [9.5367431640625e-7, 0.0009765625, 1024.0, 1048576.0] { sets.push((format!("asymmetric integers * {:?}", s), [-2.0, -1.0, 0.0, 1.0, 3.0, 4.0, 6.0].iter().map(|x| x * s).collect(), 1e-9)); }
+    sets.push(("duplicate abscissae".to_string(), vec![0.0, 0.0, 1.0, 2.0, 2.0, 2.0, 5.0], 1e-9));
+    sets.push(("all negative".to_string(), vec![-40.0, -39.0, -37.5, -36.0, -33.0, -32.0, -30.0], 1e-9));
+    sets.push(("two points far apart".to_string(), vec![-1000000.0, 3000000.0], 1e-9));
+    sets.push(("two points, offset".to_string(), vec![4096.0, 4096.5], 1e-9));
+    sets.push(("cluster near zero + leverage points".to_string(), vec![0.0, 0.015625, 0.03125, 0.046875, 0.0625, 37.0, 100.0], 1e-9));
+    for (n, shift, den) in [(100usize, 30.0, 64.0), (1025, 400.0, 512.0), (5000, 1500.0, 8.0)] { sets.push((format!("{} values (k - {:?}) / {:?}", n, shift, den), (0..n).map(|k| (k as f64 - shift) / den).collect(), 1e-9)); }
+    for (name, xs, tol) in sets.iter() {
+        let n = xs.len();
+        let x0 = xs[0]; let xmax = xs.iter().fold(0.0f64, |a, b| a.max(b.abs()));
+        let span = xs[n - 1] - xs[0];
+        let mut ysets: Vec<(Vec<f64>, Option<(f64, f64)>)> = vec![];
+        // exact lines through (x0, a) with slope mm / span * 8 (dyadic for the families used): ordinates are small exact numbers
+        for (a, mm) in [(-2.0, 3.0), (4.0, -0.5), (1.0, 0.0)] { let m = mm; ysets.push((xs.iter().map(|x| a + m * (x - x0)).collect(), Some((m, a - m * x0)))); }
+        for (di, d) in DATA.iter().enumerate() { ysets.push(((0..n).map(|i| d[(i * 7 + di) % 9]).collect(), None)); }
+        // ordinates far from zero
+        ysets.push(((0..n).map(|i| 1048576.0 + DATA[0][(i * 4) % 9]).collect(), None));
+        for (ys, exact) in ysets.iter() {
+            r.case();
+            let s = match Series1::try_new(xs.clone(), ys.clone()) { Ok(s) => s, Err(_) => { r.check(false, "Series1::try_new accepts ascending abscissae", || format!("{:?}", xs)); continue; } };
+            let line = s.best_fit_line();
+            let again = s.best_fit_line();
+            let fit = fit_caught::<2>(xs, ys, None);
+            let (cm, cb) = centred_line(xs, ys);
+            let desc = || format!("Series1 '{}' x {:?}{} y {:?}{}: best_fit_line [b, m] = {:?}, degree-1 fit {:?}, centred closed form [b, m] = {:?}", name, &xs[..n.min(8)], if n > 8 { ".." } else { "" }, &ys[..n.min(8)], if n > 8 { ".." } else { "" }, line.c, fit.as_ref().map(|p| p.c), [cb, cm]);
+            let ymax = ys.iter().fold(0.0f64, |a, b| a.max(b.abs()));
+            // natural magnitudes: slope ~ ymax / xmax, intercept ~ ymax + |m| xmax
+            let e_fit = match &fit { Some(f) => coeff_err(&line.c, &f.c, xs).max(coeff_err(&f.c, &line.c, xs)), None => f64::INFINITY };
+            // the degree-1 fit solves the normal equations of the monomial basis: its own accuracy degrades with (|x| / spread)^2
+            // (measured 7.6e-6 at |x| = 1e6, spread 13); best_fit_line is compared with the centred closed form at full accuracy below
+            let tol_fit = (2e-13 * (xmax / span) * (xmax / span)).max(*tol * 100.0);
+            r.check(within(&format!("series vs degree-1 fit {}", name), e_fit, tol_fit), "Series1::best_fit_line agrees with the degree-1 least-squares fit", desc);
+            let e_c = ((line.c[1] - cm).abs() * xmax + (line.c[0] - cb).abs()) / (ymax + cm.abs() * xmax).max(f64::MIN_POSITIVE);
+            r.check(within(&format!("series vs centred closed form {}", name), e_c, *tol * 100.0), "Series1::best_fit_line residual orthogonal to the columns 1 and x", desc);
+            if let Some((m, b)) = exact {
+                let e = ((line.c[1] - m).abs() * xmax + (line.c[0] - b).abs()) / (b.abs() + m.abs() * xmax).max(f64::MIN_POSITIVE);
+                r.check(within(&format!("series exact line {}", name), e, *tol), "Series1::best_fit_line of exact samples of a line returns that line", desc);
+            }
+            r.check(within(&format!("series normal-eq {}", name), normal_eq_err(&line.c, xs, ys, &vec![1.0; n]), *tol * 100.0), "Series1::best_fit_line residual orthogonal to the columns 1 and x", desc);
+            r.check(line.m() == line.c[1] && line.b() == line.c[0] && again.c == line.c, "Series1::best_fit_line returns slope m() and intercept b() and is repeatable", desc);
+        }
+    }
+}
+
+// ---------------------------------------------------------------- wave 5: three-point circle
+fn check_three_points_w5(r: &mut Report) {
+    const CL_ON: &str = "three-point circle passes through its three points";
+    const CL_COL: &str = "collinear points are rejected";
+    // (1) the 12 integer points of x^2 + y^2 = 25 scaled by powers of two (r = 0.0195 .. 5.2e6) and shifted far from the origin
+    // by integers (every coordinate and every square is exact): all C(12,3) triples in two orders
+    for (sc, ox, oy) in [(0.00390625, 0.0, 0.0), (1.0, 1000000.0, -2000000.0), (1.0, -30000.0, 30000.0), (1048576.0, 0.0, 0.0), (1024.0, 4194304.0, 1048576.0), (0.00390625, 3.0, -2.0)] {
+        for a in 0..12 { for b in (a + 1)..12 { for c in (b + 1)..12 { for order in 0..2 {
+            let q = |k: usize| Point2::new(ox + LATTICE[k].0 * sc, oy + LATTICE[k].1 * sc);
+            let (p0, p1, p2) = if order == 0 { (q(a), q(b), q(c)) } else { (q(c), q(a), q(b)) };
+            r.case();
+            let res = Circle2::from_3_points(p0, p1, p2);
+            let rad = 5.0 * sc;
+            let desc = || format!("from_3_points({:?}, {:?}, {:?}) (integer points of the circle of radius {:?} about ({:?}, {:?})) -> {:?}", (p0.x, p0.y), (p1.x, p1.y), (p2.x, p2.y), rad, ox, oy, res.as_ref().map(|c| (c.x(), c.y(), c.r())).map_err(|_| "Err"));
+            match &res {
+                Err(_) => r.check(false, "three points in general position yield a circle", desc),
+                Ok(c) => {
+                    // tolerance relative to the radius and to the magnitude of the coordinates (the input is exact)
+                    let mag = rad + 1e-9 * (ox.abs() + oy.abs());
+                    let e = [p0, p1, p2].iter().map(|p| (((p.x - c.x()).powi(2) + (p.y - c.y()).powi(2)).sqrt() - c.r()).abs()).fold(0.0, f64::max) / mag;
+                    let e2 = ((c.x() - ox).abs() + (c.y() - oy).abs() + (c.r() - rad).abs()) / mag;
+                    r.check(within("three points: distance to the circle / r", e, 1e-7) && within("three points: centre and radius / r", e2, 1e-7), CL_ON, desc);
+                }
+            }
+        } } } }
+    }
+    // flat but valid triples (sagitta 2^-10 of the half chord), every order
+    {
+        let f = [Point2::new(-1.0, 0.0), Point2::new(0.0, 0.0009765625), Point2::new(1.0, 0.0)];
+        for (a, b, c) in [(0, 1, 2), (0, 2, 1), (1, 0, 2), (1, 2, 0), (2, 0, 1), (2, 1, 0)] { for (ox, oy) in [(0.0, 0.0), (512.0, -256.0)] {
+            let (p0, p1, p2) = (Point2::new(f[a].x + ox, f[a].y + oy), Point2::new(f[b].x + ox, f[b].y + oy), Point2::new(f[c].x + ox, f[c].y + oy));
+            r.case();
+            let res = Circle2::from_3_points(p0, p1, p2);
+            let want_r = (1.0 + 0.0009765625 * 0.0009765625) / (2.0 * 0.0009765625);
+            let ok = match &res { Ok(c) => (c.r() - want_r).abs() <= 1e-7 * want_r && (c.x() - ox).abs() <= 1e-7 * want_r && (c.y() - (oy + 0.0009765625 - want_r)).abs() <= 1e-7 * want_r, Err(_) => false };
+            r.check(ok, CL_ON, || format!("from_3_points({:?}, {:?}, {:?}) -> {:?}; expected radius {:?}", (p0.x, p0.y), (p1.x, p1.y), (p2.x, p2.y), res.as_ref().map(|c| (c.x(), c.y(), c.r())).map_err(|_| "Err"), want_r));
+        } }
+    }
+    // (3) collinear: exactly (integers far from the origin, non-axis-aligned directions), up to rounding (decimal origin and
+    // direction at 1e3 .. 1e6), coincident points
+    let lines: [((f64, f64), (f64, f64)); 8] = [((1000000.0, -3000000.0), (3.0, 7.0)), ((-65536.0, 65536.0), (-5.0, 2.0)), ((4194304.0, 4194304.0), (1.0, 1.0)), ((0.0, 0.0), (0.375, -0.625)),
+        ((1000.1, 2000.3), (0.7, 1.3)), ((100000.1, -50000.7), (1.1, 0.3)), ((1000000.1, -1000000.3), (0.7, -1.3)), ((-999999.9, 0.1), (0.1, 0.9))];
+    let ts = [-3.0, -1.0, 0.0, 0.5, 1.0, 2.5, 7.0, 10.0];
+    for (o, d) in lines.iter() { for a in 0..ts.len() { for b in 0..ts.len() { for c in 0..ts.len() {
+        if b == c && a == b && a != 0 { continue; }
+        let q = |t: f64| Point2::new(o.0 + d.0 * t, o.1 + d.1 * t);
+        let (p0, p1, p2) = (q(ts[a]), q(ts[b]), q(ts[c]));
+        r.case();
+        let res = Circle2::from_3_points(p0, p1, p2);
+        r.check(res.is_err(), CL_COL, || format!("from_3_points({:?}, {:?}, {:?}) (points {:?} + t*{:?}, t = {:?}, {:?}, {:?}{}) -> {:?}", (p0.x, p0.y), (p1.x, p1.y), (p2.x, p2.y), o, d, ts[a], ts[b], ts[c], if a == b || b == c || a == c { "; coincident points" } else { "" }, res.as_ref().map(|c| (c.x(), c.y(), c.r())).map_err(|_| "Err")));
+    } } } }
+}
+
+// ---------------------------------------------------------------- wave 5: circle fit
+fn check_circle_fit_w5(r: &mut Report) {
+    const CLAUSE: &str = "circle fit from a nearby guess recovers centre and radius from exact samples (arc >= 60 degrees)";
+    const CL_STAT: &str = "circle fit stops at a stationary point of the summed squared radial residuals";
+    let ring = [(0.0, 0.0, 1.0), (0.1, 0.0, 0.9), (-0.1, 0.05, 1.1), (0.05, -0.15, 1.15), (-0.08, -0.08, 0.85), (0.0, 0.15, 1.0)];
+    // (1) tiny and huge radii, centres far from the origin (centre / radius up to 1e6); clockwise sample order
+    let circles = [(1000.0, -2000.0, 1.0), (1000000.0, 1000000.0, 1.0), (-1000000.0, 300000.0, 250.0), (0.0, 0.0, 1000000.0), (500000.0, -500000.0, 1000000.0),
+        (0.0, 0.0, 9.5367431640625e-7), (3.0, -2.0, 1.0e-6), (-65536.0, 65536.0, 4096.0)];
+    let arcs = [(17.0, 60.0), (200.0, 90.0), (10.0, 200.0), (0.0, 360.0), (100.0, -75.0), (350.0, -300.0)];
+    for (cx, cy, rad) in circles { for (a0, sw) in arcs { for (gx, gy, gs) in ring { for mode in [BestFit::All, BestFit::Gaussian(3.0)] {
+        let guess = Circle2::new(cx + gx * rad, cy + gy * rad, rad * gs);
+        let pts = arc_points(cx, cy, rad, a0, sw, 24, 0.0);
+        r.case();
+        let res = Circle2::fitting_circle(&pts, &guess, mode).ok();
+        // the samples are rounded to the grid of their coordinates: allow that much
+        let slack = 1e-6 * rad + 64.0 * f64::EPSILON * (cx.abs() + cy.abs());
+        let e = match &res { Some(c) => ((c.x() - cx).abs().max((c.y() - cy).abs()).max((c.r() - rad).abs())) / slack, None => f64::INFINITY };
+        r.check(within("circle fit (scales / far centres): error / allowed", e, 1.0), CLAUSE, || format!("fitting_circle(24 samples of circle ({:?}, {:?}, r {:?}) over [{:?}, {:?}] degrees, guess ({:?}, {:?}, r {:?}), {}) -> {:?}", cx, cy, rad, a0, a0 + sw, guess.x(), guess.y(), guess.r(), mode_name(&mode), res.map(|c| (c.x(), c.y(), c.r()))));
+    } } } }
+    // perturbed samples on the same circles: stationarity (BestFit::All)
+    for (cx, cy, rad) in circles { for (a0, sw) in [(10.0, 200.0), (200.0, 90.0), (350.0, -300.0)] { for (gx, gy, gs) in [ring[1], ring[3]] { for amp in [0.02, 0.08] {
+        let guess = Circle2::new(cx + gx * rad, cy + gy * rad, rad * gs);
+        let pts = arc_points(cx, cy, rad, a0, sw, 40, amp * rad);
+        r.case();
+        let res = Circle2::fitting_circle(&pts, &guess, BestFit::All).ok();
+        let desc = || format!("fitting_circle(40 samples of circle ({:?}, {:?}, r {:?}) over [{:?}, {:?}] degrees perturbed by up to {:?}, guess ({:?}, {:?}, r {:?}), All) -> {:?}", cx, cy, rad, a0, a0 + sw, amp * rad, guess.x(), guess.y(), guess.r(), res.map(|c| (c.x(), c.y(), c.r())));
+        match res {
+            None => r.check(false, "circle fit of perturbed samples terminates successfully", desc),
+            Some(c) => { let (g, scale) = gradient(&pts, &c); let gn = (g[0] * g[0] + g[1] * g[1] + g[2] * g[2]).sqrt();
+                r.check(within("circle fit (scales / far centres): gradient / sum 2|res|", gn / scale, 1e-5), CL_STAT, || format!("{} gradient {:?} (sum of 2|residual| = {:?})", desc(), g, scale)); }
+        }
+    } } } }
+    // (1) many samples; (5) every sample listed twice, samples in a scattered order
+    for (cx, cy, rad) in [(3.0, -2.0, 5.0), (-40.0, 25.0, 12.5)] { for (a0, sw) in [(17.0, 60.0), (0.0, 360.0), (90.0, 270.0)] { for (gx, gy, gs) in [ring[1], ring[2], ring[4]] { for mode in [BestFit::All, BestFit::Gaussian(3.0)] {
+        let guess = Circle2::new(cx + gx * rad, cy + gy * rad, rad * gs);
+        let mut variants: Vec<(String, Vec<Point2>)> = vec![];
+        for n in [1000usize, 5000] { variants.push((format!("{} samples", n), arc_points(cx, cy, rad, a0, sw, n, 0.0))); }
+        let base = arc_points(cx, cy, rad, a0, sw, 31, 0.0);
+        variants.push(("31 samples, each listed twice".to_string(), base.iter().flat_map(|p| [*p, *p]).collect()));
+        variants.push(("31 samples in the order 12 k mod 31".to_string(), (0..31).map(|k| base[(12 * k) % 31]).collect()));
+        for (vn, pts) in variants.iter() {
+            r.case();
+            let res = Circle2::fitting_circle(pts, &guess, mode).ok();
+            r.check(recovered(&res, cx, cy, rad), CLAUSE, || format!("fitting_circle({} of circle ({:?}, {:?}, r {:?}) over [{:?}, {:?}] degrees, guess ({:?}, {:?}, r {:?}), {}) -> {:?}", vn, cx, cy, rad, a0, a0 + sw, guess.x(), guess.y(), guess.r(), mode_name(&mode), res.map(|c| (c.x(), c.y(), c.r()))));
+        }
+    } } } }
+    // (2) guesses in all eight directions at 0.15 r, radius 15% small / large
+    for (cx, cy, rad) in [(3.0, -2.0, 5.0), (0.5, 0.25, 0.125)] { for (a0, sw) in [(17.0, 60.0), (-45.0, 135.0)] { for dir in 0..8 { for gs in [0.85, 1.15] {
+        let a = (dir as f64 * 45.0f64).to_radians();
+        let guess = Circle2::new(cx + 0.15 * rad * a.cos(), cy + 0.15 * rad * a.sin(), rad * gs);
+        let pts = arc_points(cx, cy, rad, a0, sw, 40, 0.0);
+        r.case();
+        let res = Circle2::fitting_circle(&pts, &guess, BestFit::All).ok();
+        r.check(recovered(&res, cx, cy, rad), CLAUSE, || format!("fitting_circle(40 samples of circle ({:?}, {:?}, r {:?}) over [{:?}, {:?}] degrees, guess ({:?}, {:?}, r {:?}), All) -> {:?}", cx, cy, rad, a0, a0 + sw, guess.x(), guess.y(), guess.r(), res.map(|c| (c.x(), c.y(), c.r()))));
+    } } } }
+    // sigma clipping that removes samples: slightly perturbed samples + gross outliers; the result is a stationary point of the
+    // summed squared residuals of the samples within sigma standard deviations of the mean residual (population standard
+    // deviation; the gap between kept and clipped samples is wide, so the kept set does not depend on the convention)
+    const CL_CLIP: &str = "circle fit in BestFit::Gaussian(sigma) mode stops at a stationary point of the summed squared radial residuals of the samples within sigma standard deviations";
+    for (cx, cy, rad) in [(3.0, -2.0, 5.0), (-40.0, 25.0, 12.5), (1000.0, -2000.0, 1.0)] { for (a0, sw) in [(10.0, 200.0), (0.0, 360.0), (200.0, 120.0)] { for (n_out, off) in [(1usize, 0.6), (3, 0.5), (3, -0.45), (2, 0.8)] { for sigma in [2.0, 2.5] { for (gx, gy, gs) in [ring[0], ring[1], ring[2]] { for amp in [0.0, 0.02] {
+        let guess = Circle2::new(cx + gx * rad, cy + gy * rad, rad * gs);
+        let mut pts = arc_points(cx, cy, rad, a0, sw, 40, amp * rad);
+        for j in 0..n_out {
+            let a = (a0 + sw * (0.2 + 0.3 * j as f64)).to_radians();
+            let rr = rad * (1.0 + off * (1.0 + 0.1 * j as f64));
+            pts.insert(5 + 11 * j, Point2::new(cx + rr * a.cos(), cy + rr * a.sin()));
+        }
+        r.case();
+        let res = Circle2::fitting_circle(&pts, &guess, BestFit::Gaussian(sigma)).ok();
+        let desc = || format!("fitting_circle(40 samples of circle ({:?}, {:?}, r {:?}) over [{:?}, {:?}] degrees perturbed by up to {:?} + {} outliers radially off by {:?} r at the indices 5, 16, 27: {:?}, guess ({:?}, {:?}, r {:?}), Gaussian({:?})) -> {:?}", cx, cy, rad, a0, a0 + sw, amp * rad, n_out, off, pts.iter().map(|p| (p.x, p.y)).collect::<Vec<_>>(), guess.x(), guess.y(), guess.r(), sigma, res.map(|c| (c.x(), c.y(), c.r())));
+        match res {
+            None => r.check(false, "circle fit of perturbed samples terminates successfully", desc),
+            Some(c) => {
+                let res_i: Vec<f64> = pts.iter().map(|p| ((p.x - c.x()).powi(2) + (p.y - c.y()).powi(2)).sqrt() - c.r()).collect();
+                let mean = res_i.iter().sum::<f64>() / res_i.len() as f64;
+                let sd = (res_i.iter().map(|e| (e - mean) * (e - mean)).sum::<f64>() / res_i.len() as f64).sqrt();
+                let dev: Vec<f64> = res_i.iter().map(|e| (e - mean).abs() / sd).collect();
+                let kept: Vec<Point2> = (0..pts.len()).filter(|i| dev[*i] <= sigma).map(|i| pts[i]).collect();
+                // wide gap: nothing within 15% of the threshold
+                let gap = dev.iter().all(|d| *d <= sigma * 0.85 || *d >= sigma * 1.15);
+                let (g, scale) = gradient(&kept, &c);
+                let gn = (g[0] * g[0] + g[1] * g[1] + g[2] * g[2]).sqrt();
+                let e = if amp == 0.0 { gn / (1e-9 * rad * kept.len() as f64) * 1e-5 } else { gn / scale };
+                r.check(gap && kept.len() == 40 && within("circle fit (sigma clipping): gradient over the kept samples", e, 1e-5), CL_CLIP, || format!("{}; kept {} samples, deviations / std of the outliers {:?}, gradient over the kept samples {:?} (sum of 2|residual| = {:?})", desc(), kept.len(), (0..n_out).map(|j| dev[5 + 11 * j]).collect::<Vec<_>>(), g, scale));
+            }
+        }
+    } } } } } }
+}
+
+// ---------------------------------------------------------------- wave 5: RANSAC
+fn check_ransac_w5(r: &mut Report) {
+    const CL: &str = "seeded RANSAC circle has at least as many inliers as the generating circle";
+    const CLW: &str = "seeded RANSAC circle within a radius window has at least as many inliers as the generating circle";
+    let show = |res: &crate::Result<Circle2>, count: &dyn Fn(&Circle2) -> usize| match res { Ok(c) => format!("Ok(({:?}, {:?}, r {:?}), {} inliers)", c.x(), c.y(), c.r(), count(c)), Err(_) => "Err".to_string() };
+    // (2) exactly three points, three points + one outlier, every sample duplicated; tiny tolerance on exact data
+    for (ox, oy, sc) in [(0.0, 0.0, 1.0), (7.0, -3.0, 1.0), (1000000.0, -2000000.0, 1.0), (0.0, 0.0, 1048576.0), (0.5, 0.25, 0.0625)] {
+        let q = |k: usize| Point2::new(ox + LATTICE[k].0 * sc, oy + LATTICE[k].1 * sc);
+        let gen = Circle2::new(ox, oy, 5.0 * sc);
+        let mut sets: Vec<(String, Vec<Point2>)> = vec![
+            ("exactly three points".to_string(), vec![q(2), q(5), q(9)]),
+            ("three points + one outlier".to_string(), vec![q(0), Point2::new(ox + sc, oy + sc), q(3), q(7)]),
+            ("three points, each listed twice".to_string(), vec![q(1), q(1), q(6), q(6), q(10), q(10)]),
+            ("the 12 integer points".to_string(), (0..12).map(|k| q(k)).collect()),
+        ];
+        let mut with_out: Vec<Point2> = (0..12).map(|k| q(k)).collect();
+        for (k, (x, y)) in [(1.0, 1.0), (2.0, -1.0), (7.0, 7.0), (-6.0, 2.0), (0.0, 3.0), (-8.0, -8.0), (2.0, 6.0), (6.0, 1.0), (-1.0, -6.0)].iter().enumerate() { with_out.insert((k * 2 + 1) % with_out.len(), Point2::new(ox + x * sc, oy + y * sc)); }
+        sets.push(("the 12 integer points + 9 outliers".to_string(), with_out));
+        for (sn, pts) in sets.iter() { for tol in [0.01 * sc, 1e-6 * sc, 0.3 * sc] { for it in [None, Some(2000usize)] {
+            let count = |c: &Circle2| pts.iter().filter(|p| c.distance_to(p).abs() < tol).count();
+            r.case();
+            let res = Circle2::ransac(pts, tol, it, None, None);
+            r.check(match &res { Ok(c) => count(c) >= count(&gen), Err(_) => false }, CL, || format!("ransac({}: {:?} of circle ({:?}, {:?}, r {:?}), tol {:?}, iterations {:?}) -> {}; generating circle has {} inliers", sn, pts.iter().map(|p| (p.x, p.y)).collect::<Vec<_>>(), ox, oy, 5.0 * sc, tol, it, show(&res, &count), count(&gen)));
+        } } }
+    }
+    // (1) huge circles and centres far from the origin; 1000 / 1001 / 1999 points (just below the sizes of round 4)
+    for (cx, cy, rad, n_in, n_out) in [(100000.0, -200000.0, 300.0, 60usize, 25usize), (0.0, 0.0, 1000000.0, 60, 25), (1000000.0, 1000000.0, 10.0, 48, 30), (2.0, -1.0, 3.0, 600, 400), (2.0, -1.0, 3.0, 601, 400), (-4.0, 3.0, 5.0, 1100, 899)] {
+        let tol = 1e-3 * rad;
+        let mut pts: Vec<Point2> = Vec::new();
+        let (mut gi, mut oi) = (0usize, 0usize);
+        for i in 0..(n_in + n_out) {
+            // outliers spread among the samples (every index with i * n_out / total changing)
+            let is_out = oi < n_out && (i * n_out) / (n_in + n_out) >= oi && (gi >= n_in || (i * n_out) % (n_in + n_out) < n_out);
+            if is_out {
+                let a = (oi as f64 * 47.0 + 11.0).to_radians();
+                let d = rad * (0.2 + 0.15 * ((oi * 5) % 7) as f64) + if oi % 2 == 0 { rad * 0.9 } else { 0.0 };
+                pts.push(Point2::new(cx + d * a.cos(), cy + d * a.sin())); oi += 1;
+            } else if gi < n_in {
+                let a = 0.05 + 6.2 * gi as f64 / n_in as f64;
+                pts.push(Point2::new(cx + rad * a.cos(), cy + rad * a.sin())); gi += 1;
+            } else {
+                let a = (oi as f64 * 47.0 + 11.0).to_radians();
+                let d = rad * (0.2 + 0.15 * ((oi * 5) % 7) as f64) + if oi % 2 == 0 { rad * 0.9 } else { 0.0 };
+                pts.push(Point2::new(cx + d * a.cos(), cy + d * a.sin())); oi += 1;
+            }
+        }
+        let gen = Circle2::new(cx, cy, rad);
+        let count = |c: &Circle2| pts.iter().filter(|p| c.distance_to(p).abs() < tol).count();
+        let want = count(&gen);
+        for (it, lo, hi) in [(None, None, None), (Some(300usize), Some(rad * 0.5), None), (Some(300), None, Some(rad * 2.0)), (Some(300), Some(rad * 0.9), Some(rad * 1.1))] {
+            r.case();
+            let res = Circle2::ransac(&pts, tol, it, lo, hi);
+            let within_w = |c: &Circle2| lo.map_or(true, |v| c.r() >= v) && hi.map_or(true, |v| c.r() <= v);
+            r.check(want >= n_in && match &res { Ok(c) => count(c) >= want && within_w(c), Err(_) => false }, if lo.is_none() && hi.is_none() { CL } else { CLW },
+                || format!("ransac({} points: {} samples of circle ({:?}, {:?}, r {:?}) + {} outliers spread among them, tol {:?}, iterations {:?}, min_r {:?}, max_r {:?}) -> {}; generating circle has {} inliers", pts.len(), n_in, cx, cy, rad, n_out, tol, it, lo, hi, show(&res, &count), want));
+        }
+    }
+    // (2) a radius window that EXCLUDES a better supported circle: the result must respect the window and still be supported
+    // by at least as many points as the generating circle (which is the best circle inside the window)
+    for (gen, decoy) in [((2.0, -1.0, 5.0), (-6.0, 4.0, 2.0)), ((-4.0, 3.0, 2.0), (6.5, -5.0, 5.0))] {
+        let (n_gen, n_decoy) = (30usize, 45usize);
+        let mut pts: Vec<Point2> = Vec::new();
+        for i in 0..n_decoy {
+            let a = 0.3 + 6.0 * i as f64 / n_decoy as f64;
+            pts.push(Point2::new(decoy.0 + decoy.2 * a.cos(), decoy.1 + decoy.2 * a.sin()));
+            if i < n_gen { let a = 0.1 + 6.1 * i as f64 / n_gen as f64; pts.push(Point2::new(gen.0 + gen.2 * a.cos(), gen.1 + gen.2 * a.sin())); }
+            if i % 3 == 0 { pts.push(scatter(i)); }
+        }
+        let tol = 1e-3;
+        let gc = Circle2::new(gen.0, gen.1, gen.2);
+        let count = |c: &Circle2| pts.iter().filter(|p| c.distance_to(p).abs() < tol).count();
+        let want = count(&gc);
+        let windows: [(Option<f64>, Option<f64>); 3] = if gen.2 > decoy.2 { [(Some(3.0), None), (Some(3.0), Some(8.0)), (Some(gen.2), Some(gen.2 * 1.0000001))] } else { [(None, Some(3.0)), (Some(1.0), Some(3.0)), (Some(gen.2 * 0.9999999), Some(gen.2))] };
+        for (lo, hi) in windows { for it in [None, Some(1500usize)] {
+            r.case();
+            let res = Circle2::ransac(&pts, tol, it, lo, hi);
+            let within_w = |c: &Circle2| lo.map_or(true, |v| c.r() >= v) && hi.map_or(true, |v| c.r() <= v);
+            r.check(want >= n_gen && match &res { Ok(c) => count(c) >= want && within_w(c), Err(_) => false }, CLW,
+                || format!("ransac({} points: {} samples of circle {:?}, {} samples of circle {:?} OUTSIDE the radius window, scattered points; tol {:?}, iterations {:?}, min_r {:?}, max_r {:?}) -> {}; generating circle has {} inliers", pts.len(), n_gen, gen, n_decoy, decoy, tol, it, lo, hi, show(&res, &count), want));
+        } }
+    }
+}
+
+fn run_w5(r: &mut Report) {
+    let hook = std::panic::take_hook();
+    std::panic::set_hook(Box::new(|_| {}));
+    check_poly_w5::<2>(r); check_poly_w5::<3>(r); check_poly_w5::<4>(r); check_poly_w5::<5>(r); check_poly_w5::<6>(r);
+    std::panic::set_hook(hook);
+    check_line1_w5(r);
+    check_series_w5(r);
+    check_three_points_w5(r);
+    check_circle_fit_w5(r);
+    check_ransac_w5(r);
+    dump_measurements();
+}
+
 pub fn run() -> Option<Report> {
     let mut r = Report::new("polynomial sizes K=2..=6 x 6 abscissa sets (asymmetric integers, dyadic offset from zero, uneven both signs, positive side, 7 values within 4e-4 of 1.0 [K=2], 9 values within 0.07 of -2 [K<=3]) x {no weights, 2 non-uniform positive weight vectors} x {3 exact coefficient vectors, 2 arbitrary data vectors}; Series1 lines on 5 abscissa sets incl. clustered distinct values x 5 data vectors; three-point circles on all ordered triples of 10 points with |det| >= 1 and on 6 lines x all ordered triples of 8 parameters (exactly collinear and collinear up to rounding); circle fit on 4 circles x 6 arcs (60..360 degrees, 40 samples) x 6 guesses (centre within 0.16 r, radius within 15%) x {exact, perturbed 2% r, perturbed 8% r}; RANSAC on 3 contaminated sample sets (36 inliers + 8/12/18 outliers); ROUND 2: polynomial sizes K=2..=6 on {K, K+1, 8} distinct integer abscissae with ordinates that are exactly 0.0 (exact samples of polynomials with 1 / K-1 roots at the abscissae, 2 data vectors with 3..5 zeros) x {no weights, positive weights, weights with one 0.0 [more than K samples]}, a panic counts as a failing input; tightly clustered distinct dyadic abscissae: six values k/256 in [0, 0.02] (K <= 3, coefficient tolerance 1e-7) and four values {2,3,4,6}*2^-21 in [9.5e-7, 2.9e-6] (K = 2, tolerance 1e-9), also for Series1; circle fit from exactly 3 / 4 / 5 samples on 5 circles (r = 2.5e-4, 1e-3, 0.125) x 4 arcs (60 .. 288 degrees) x 9 guesses (ring of round 1 + concentric with the radius off by 15% / 25%) x {All, Gaussian(3.0)}; exactly representable samples (integer points of x^2+y^2=25, shifted / scaled by 1/16, 5 subsets of 3..12 points) x 5 guesses (4 concentric with a wrong / the right radius) x {All, Gaussian(3.0), Gaussian(2.0)}; the 40-sample exact arcs in Gaussian(3.0) mode; RANSAC on the 12 integer points of a radius-5 circle + 7 outliers with min_r / max_r exactly 5.0 (6 windows x 2 centres); ROUND 4: RANSAC on LARGE inputs (2000 / 3000 / 5000 points: 35% exact samples of the generating circle, 25% of a smaller decoy circle, the rest scattered; 2 circle pairs) whose ORDER is correlated with circle membership - interleaved with period len/1000 (decoy samples on one residue class 0 / 1 / period-1, generating samples on the others) and 3 block layouts (generating samples first / last) - x {default iterations, 400 iterations with a radius window holding both circles}, tol 1e-3; RANSAC with contamination just outside the tolerance band: 20 / 26 exact samples on a 1.6 rad arc + 9 / 11 / 13 outliers radially offset by 1.4 .. 10 tolerances on alternating sides (3 base offsets, appended or interleaved, the list rotated by 8 amounts, 2 circles; 576 inputs), default iterations");
     for s in xsets().iter() {
@@ -491,6 +1033,7 @@ pub fn run() -> Option<Report> {
     check_ransac_round2(&mut r);
     check_ransac_large(&mut r);
     check_ransac_near_band(&mut r);
+    run_w5(&mut r);
     let _ = close(0.0, 0.0);
     Some(r)
 }
